@@ -154,6 +154,13 @@ impl JobId for Job {
     }
 }
 
+/// A job id paired with its job, or with `None` if the lender was empty.
+impl JobId for (usize, Option<Job>) {
+    fn id(&self) -> usize {
+        self.0
+    }
+}
+
 /// Writes γ-coded delta offsets to a bitstream.
 ///
 /// Used internally by [`BvComp`] and [`BvCompConf`] to produce the
@@ -773,6 +780,9 @@ impl<PL: ProgressLog> BvCompConf<PL> {
                     log::debug!("Thread {thread_id} started");
 
                     let Some((node_id, successors)) = thread_lender.next() else {
+                        // An empty lender must still report, or the task
+                        // queue would wait for its id forever
+                        tx.send((thread_id, None)).ok();
                         return;
                     };
 
@@ -829,7 +839,7 @@ impl<PL: ProgressLog> BvCompConf<PL> {
                     );
                     #[cfg(feature = "verif_hooks")]
                     crate::verif_hooks::before_job_send(thread_id);
-                    tx.send(Job {
+                    tx.send((thread_id, Some(Job {
                         job_id: thread_id,
                         first_node,
                         last_node,
@@ -844,7 +854,7 @@ impl<PL: ProgressLog> BvCompConf<PL> {
                         labels_written_bits: stats.labels_written_bits,
                         part_label_offsets_path: Some(part_label_offsets_path),
                         label_offsets_written_bits: stats.label_offsets_written_bits,
-                    })
+                    })))
                     .ok(); // If channel is closed, main thread already has an error
                 });
             }
@@ -869,23 +879,26 @@ impl<PL: ProgressLog> BvCompConf<PL> {
             let mut next_node = 0;
             // glue together the bitstreams as they finish, this allows us to do
             // task pipelining for better performance
-            for Job {
-                job_id,
-                first_node,
-                last_node,
-                chunk_graph_path,
-                written_bits,
-                chunk_offsets_path,
-                offsets_written_bits,
-                num_arcs,
-                tot_ref,
-                tot_dist,
-                part_labels_path,
-                labels_written_bits,
-                part_label_offsets_path,
-                label_offsets_written_bits,
-            } in TaskQueue::new(rx.into_rayon_iter())
-            {
+            for (_, job) in TaskQueue::new(rx.into_rayon_iter()) {
+                let Some(Job {
+                    job_id,
+                    first_node,
+                    last_node,
+                    chunk_graph_path,
+                    written_bits,
+                    chunk_offsets_path,
+                    offsets_written_bits,
+                    num_arcs,
+                    tot_ref,
+                    tot_dist,
+                    part_labels_path,
+                    labels_written_bits,
+                    part_label_offsets_path,
+                    label_offsets_written_bits,
+                }) = job
+                else {
+                    continue;
+                };
                 ensure!(
                     first_node == next_node,
                     "Non-adjacent lenders: lender {} has first node {} instead of {}",
